@@ -5,21 +5,31 @@
    every list of lines / every state and word; none is restricted to the protocol grammars.
 
    What is proved here: the time side of the property (frame grid, not before the line, inside the line's
-   transmission window, frames per word), the channel filter and the single action of doubled control codes.
-   Of the display side the protocol skeleton is proved, on the model: what is loaded in pop-on style is not visible
-   before the EOC; EOC starts the buffered caption and ends the displayed one at its stamp; EDM ends the displayed
-   caption one frame later; after a carriage return a roll-up caption has at most `depth` rows; while the cursor is at
-   the end of the row being written, characters are appended in the order received (three styles), a backspace removes
-   the preceding character and an extended character replaces it.
-   What is NOT proved: the simulation `rows_of_doc (to_model ..) f = screen .. f` (C08_popon and its roll-up /
-   paint-on analogues, DESIGN section 5) - which characters sit on which rows with which attributes.  It is false at
-   full strength of the faithful model (Findings/C08.v, fourteen recorded findings) and is compared by the
-   correspondence run only (harness/c08.py, oracle 2).  The intended statement is
-     forall ws in PopOnGrammar, no trigger of Spec/Cea608Screen.v fires on ws -> S_word ws df (to_model ws) = None
-   and is left unproved. *)
+   transmission window, frames per word), the channel filter (full statement since the repair of previous_word) and the
+   single action of doubled control codes; the protocol skeleton (pop-on loading invisible before EOC, EOC / EDM stamps,
+   roll-up depth, text accumulation, backspace / extended characters on the model); and, for the pop-on protocol, the
+   display half itself:
+     C08_popon_word / C08_popon_memories   for every stream of the pop-on class (executable membership test `pop_word`,
+         Proofs/C08/ScreenPopOn.v) the reader's buffered caption shows the reference decoder's non-displayed memory and
+         its displayed caption the displayed memory, cell by cell (character, colour, italics, underline, row, column);
+     C08_popon_display   for every file of that class without doubled codes, for every text_align, at every frame that is
+         not the frame right after an EDM, `rows_of_doc (to_model ..)` at the instant the frame starts equals
+         `screen .. f` of Spec/Cea608Screen.v (vrows_eqb: rows, characters, colour, italics, underline).
+     C08_rollup_word / C08_rollup_memories   for roll-up streams with base row 15 and a fixed depth (class `ru_word`), after every
+         word the displayed caption shows the decoder's displayed memory cell by cell (contents, not times).
+   What is NOT proved: the times of roll-up streams and everything about paint-on streams (false at word granularity: recorded
+   findings text-shown-from-paragraph-begin, rollup-base-row-forced-15, painton-pac-clears-row, region-above-attached), pop-on
+   streams outside the class (PACs returning to a row that already holds text - recorded findings pac-left-of-row-content and
+   overwrite-keeps-element-style -, BS, background attribute codes, CR in pop-on mode - recorded finding
+   cr-erases-non-rollup-caption), and the timing of streams with doubled codes (recorded finding doubled-code-no-frame:
+   C08_popon_memories still gives the contents).  Those are compared by the correspondence run only (harness/c08.py,
+   oracle 2; the run also checks that every generated stream of the theorem's class is accepted by the strict oracle). *)
 From Coq Require Import QArith.
 From TT Require Import Base.Prelude Base.SccTypes Base.SccDoc Model.SccWord Model.TimeCode Model.SccReader.
+From TT Require Import Spec.Cea608Screen.
 From TT Require Import Proofs.C08.Stamps Proofs.C08.Words Proofs.C08.Protocol Proofs.C08.Text.
+From TT Require Import Proofs.C08.ScreenMem Proofs.C08.ScreenLine Proofs.C08.ScreenPopOn Proofs.C08.ScreenFile Proofs.C08.ScreenFinal.
+From TT Require Import Proofs.C08.ScreenRollUp Proofs.C08.ScreenRollStep.
 Open Scope Z_scope.
 
 (* every time code stored in a pushed paragraph (begin, end, span begins) is the time code of one of the file's
@@ -60,17 +70,18 @@ Proof. exact frames_clean. Qed.
 Theorem C08_stamp_never_late : forall ws c, exists k, (k <= length ws)%nat /\ c_tc (fold_left step ws c) = iter_n k tc_next (c_tc c).
 Proof. exact frames_at_most. Qed.
 
-(* channel filter: a block of null padding, control-range words not attributed to channel 1 and characters received
-   while another channel is addressed changes nothing but the elapsed frames and the channel being addressed ... *)
-Theorem C08_channel_block : forall b c, c_err c = false -> (forall w, In w b -> is_dup c w = false) ->
-  block_ok (c_chan c) b = true ->
-  fold_left step b c = with_chan (with_tc c (iter_n (length b) tc_next (c_tc c))) (chan_end (c_chan c) b).
+(* channel filter: a (non-empty) block of null padding, control-range words not attributed to channel 1 and characters
+   received while another channel is addressed changes nothing but the elapsed frames and the channel being addressed,
+   and makes the reader forget previous_word (only the first word of the block could itself be taken for a second copy) ... *)
+Theorem C08_channel_block : forall w b c, c_err c = false -> is_dup c w = false -> block_ok (c_chan c) (w :: b) = true ->
+  fold_left step (w :: b) c = skip_to c (iter_n (length (w :: b)) tc_next (c_tc c)) (chan_end (c_chan c) (w :: b)).
 Proof. exact channel_block. Qed.
-(* ... and the channel-1 code after it is processed as if only the frames had elapsed — partial: unless that code
-   repeats previous_word (trigger `is_dup c w`; refuted without it: Findings/C08.v C08_channel_filter_refuted) *)
-Theorem C08_channel_filter_partial : forall b w c, c_err c = false -> (forall x, In x b -> is_dup c x = false) ->
-  block_ok (c_chan c) b = true -> ch1_code w = true -> is_dup c w = false ->
-  fold_left step (b ++ [w]) c = step (with_tc c (iter_n (length b) tc_next (c_tc c))) w.
+(* ... and the channel-1 code after it is processed as if only the frames had elapsed - full statement since the repair
+   of previous-word-survives-padding (fix: previous_word reset by padding and other-channel words): whatever the code
+   is, also when it repeats the code received before the block *)
+Theorem C08_channel_filter : forall x b w c, c_err c = false -> is_dup c x = false ->
+  block_ok (c_chan c) (x :: b) = true -> ch1_code w = true ->
+  fold_left step ((x :: b) ++ [w]) c = step (with_prev (with_tc c (iter_n (length (x :: b)) tc_next (c_tc c))) None) w.
 Proof. exact channel_filter. Qed.
 
 (* doubled control codes act once: the second copy of a channel-1 control-range word only clears previous_word;
@@ -131,6 +142,71 @@ Theorem C08_extended_replaces : forall c p ch, target c = Some p -> row_ready_ne
   target_text (process_text (backspace c) [ch]) = removelast (row_text p) ++ [ch].
 Proof. exact extended_replaces. Qed.
 
+(* ------------------------------------------------------------------ the display half: pop-on streams *)
+(* The reference decoder S = Spec/Cea608Screen.v (`feed dev0`: the standard, no deviation admitted).  `pop_word s g w`
+   (Proofs/C08/ScreenPopOn.v) is the executable membership test of the stream class, evaluated on the decoder's state:
+   null padding, data channel 2, doubled codes, RCL / ENM / EDM / EOC / ignored miscellaneous codes, PACs for rows not yet
+   addressed in the non-displayed memory, and - once the cursor is positioned - characters, special and extended characters,
+   mid-row codes, tab offsets, DER.  One word: the relation `Rpop` (the buffered caption shows the non-displayed memory,
+   the displayed caption the displayed memory, cell by cell: character, colour, italics, underline, row and column; same
+   pen, same channel, same notion of "second copy") is preserved ... *)
+Theorem C08_popon_word : forall c s g w g', Rpop c s g -> pop_word s g w = Some g' -> Rpop (step c w) (feed dev0 s w) g'.
+Proof. exact step_pop. Qed.
+(* ... hence, for every file whose lines are in the class (`pop_lines`), from the reader's and the decoder's initial
+   states: no exception, and at the end of every prefix of lines the reader's buffered caption shows exactly the
+   decoder's non-displayed memory and its displayed caption exactly the displayed memory (a blank cell is a transparent
+   cell or a space) *)
+Theorem C08_popon_memories : forall ta ls s' g', pop_lines scr0 g0 ls = Some (s', g') ->
+  let c := run_words (ctx_init ta) ls in
+  s' = fold_left (fun s l => fold_left (feed dev0) (snd l) s) ls scr0 /\
+  c_err c = false /\ shows (c_buf c) (nond s') /\
+  match c_act c with Some a => shows a (disp s') | None => forall r k, is_blank (mcell (disp s') r k) = true end.
+Proof. exact popon_memories. Qed.
+(* the words of a file are those of its lines that SccLine.from_str accepts (no malformed word) *)
+Theorem C08_file_words : forall ta lines, no_bad_word lines ->
+  to_model ta lines = finish (flush (run_words (ctx_init ta) (parsed_lines lines))).
+Proof. exact to_model_words. Qed.
+
+(* The display theorem for pop-on streams (C08_popon of the design, under the stream class instead of the trigger list):
+   for every file
+     - whose lines carry labels of one rate (30 for ':' / 30000/1001 for ';'), in order, each line starting after the
+       previous one has been transmitted, and whose labels S counts as the reader does (`slines_frames_ok`, `stream_ok`),
+     - whose words are in the pop-on class `pop_word` and contain no second copy of a doubled control code
+       (`pop_lines_nc`: the second copy consumes no frame in the reader - recorded finding doubled-code-no-frame),
+   and for every text_align configuration, at every frame f that is not the frame right after an EDM (`stable`: the reader
+   keeps an erased caption until the frame after its stamp, the end being exclusive), the rows of the document rendered by
+   S's comparison function `rows_of_doc` at the instant frame f starts are equal (`vrows_eqb`: row numbers, characters,
+   colour, italics, underline; blank cells trimmed at both ends) to the reference display `screen sls f` = the displayed
+   memory of the decoder after the words transmitted before f.  Tighter than S_word: the frames of an EOC window are
+   included, of an EDM window only the middle frame is excluded. *)
+Theorem C08_popon_display : forall df ta sls s' g', slines_frames_ok df sls -> stream_ok df 0 (lines_of_slines df sls) ->
+  pop_lines_nc scr0 g0 (lines_of_slines df sls) = Some (s', g') ->
+  forall f, stable (twords (lines_of_slines df sls)) f ->
+  vrows_eqb (screen sls f) (rows_of_doc (finish (flush (run_words (ctx_init ta) (lines_of_slines df sls)))) (time_of df f)) = true.
+Proof. exact popon_display_S. Qed.
+
+(* ------------------------------------------------------------------ the display half: roll-up streams (contents) *)
+(* Roll-up with base row 15 and a fixed depth n: `ru_word n s g w` (Proofs/C08/ScreenRollStep.v) is the executable membership test
+   (null padding, data channel 2, doubled codes, CR, EDM, RUx of the same depth, a PAC for row 15 while nothing has been written
+   on the base row, and - once the cursor is positioned - characters, special and extended characters, mid-row codes, tab
+   offsets, DER).  One word: the relation `Rru n` (the displayed roll-up caption shows the displayed memory cell by cell, its
+   rows are the rows lo .. 15 of the window without a gap, same pen, channel and notion of second copy) is preserved - the
+   carriage return included: every row of the window moves up one row, the row leaving the window is dropped, the base row
+   is cleared ... *)
+Theorem C08_rollup_word : forall n c s g w g', Rru n c s g -> ru_word n s g w = Some g' -> Rru n (step c w) (feed dev0 s w) g'.
+Proof. exact step_ru. Qed.
+(* ... hence for every file that starts with RUx and stays in the class: no exception, and at the end of every prefix of lines
+   the reader's displayed caption shows exactly the decoder's displayed memory ("roll-up shows at most the selected number of
+   most recent rows": the rows of the window).  This is a statement about contents; the times at which the document shows
+   them are those of the paragraph opened by the CR / PAC (recorded finding text-shown-from-paragraph-begin). *)
+Theorem C08_rollup_memories : forall ta t0 w0 ws0 rest n s1 g1 s' g', ru_start w0 = Some n ->
+  ru_words n (feed dev0 scr0 w0) (mkGR true true true) ws0 = Some (s1, g1) -> ru_lines n s1 g1 rest = Some (s', g') ->
+  let c := run_words (ctx_init ta) ((t0, w0 :: ws0) :: rest) in
+  s' = fold_left (fun s l => fold_left (feed dev0) (snd l) s) ((t0, w0 :: ws0) :: rest) scr0 /\
+  c_err c = false /\ md s' = RollUp n /\
+  match c_act c with Some a => shows a (disp s') | None => forall r k, is_blank (mcell (disp s') r k) = true end.
+Proof. exact rollup_memories. Qed.
+
 (* non-vacuity: the hypotheses are met by concrete, non-trivial values *)
 (* after RCL, PAC row 15, "AB" the buffer is ready at the end of its row, which reads AB *)
 Example C08_example_ready : exists p, target (fold_left step [5152; 5232; 16706] (ctx_init 0)) = Some p /\
@@ -153,9 +229,43 @@ Example C08_example_clean : run_clean (ctx_init 0) [5152; 5166; 5232; 16706; 516
                             run_clean (ctx_init 0) [5152; 5152] = false.
 Proof. vm_compute. split; reflexivity. Qed.
 
+(* the pop-on class is inhabited by a stream with doubled codes, two rows, a colour PAC, a tab offset, a mid-row italics code,
+   a special and an extended character, null padding, a channel-2 block, EDM and EOC; the display then shows two rows *)
+Example C08_example_popon :
+  exists s g, pop_lines scr0 g0 [(((0, 0, 10, 0), r30), [5152; 5152; 5166; 5166; 5232; 16706; 4398; 17220; 4400; 16640; 4640; 5186; 5922; 17220; 0;
+                                                         7200; 7200; 16706; 5164; 5167; 5167])] = Some (s, g) /\
+              map fst (rows_of_mem (disp s)) = [14; 15].
+Proof. eexists. eexists. split; [vm_compute; reflexivity|vm_compute; reflexivity]. Qed.
+
+(* the hypotheses of the display theorem are met by a two-line drop-frame stream (a caption of two rows with attributes, erased
+   by the second line); frame 18060 lies inside the caption's display, 18282 is the frame right after the EDM *)
+Definition ex_sls : list sline :=
+  [mkSL true 0 10 0 0 [5152; 5166; 5232; 16706; 4398; 17220; 4400; 16640; 4640; 5186; 5922; 17220; 0; 7200; 16706; 5164; 5167];
+   mkSL true 0 10 8 0 [5164]].
+Example C08_example_display :
+  slines_frames_ok true ex_sls /\ stream_ok true 0 (lines_of_slines true ex_sls) /\
+  pop_lines_nc scr0 g0 (lines_of_slines true ex_sls) <> None /\
+  stable (twords (lines_of_slines true ex_sls)) 18060 /\ map fst (screen ex_sls 18060) = [14; 15] /\
+  stable_b (twords (lines_of_slines true ex_sls)) 18223 = false.
+Proof.
+  split; [repeat constructor|]. split; [cbn; repeat split; vm_compute; congruence|]. split; [vm_compute; discriminate|].
+  split; [apply stable_b_ok; vm_compute; reflexivity|]. split; vm_compute; reflexivity.
+Qed.
+
+(* the roll-up class is inhabited: depth 3, doubled codes, a mid-row code, special and extended characters, a blank line
+   (CR, null, CR), a colour PAC with a tab offset; the decoder then shows two of the three rows of its window *)
+Example C08_example_rollup :
+  ru_start 5158 = Some 3 /\
+  exists s1 g1 s g, ru_words 3 (feed dev0 scr0 5158) (mkGR true true true) [5158; 5165; 5165; 5232; 16706; 4398; 17220; 4400] = Some (s1, g1) /\
+    ru_lines 3 s1 g1 [(((0, 0, 20, 0), r30), [5165; 5232; 17220; 16640; 4640]); (((0, 0, 30, 0), r30), [5165; 0; 5165; 5218; 5922; 16706])] = Some (s, g) /\
+    map fst (rows_of_mem (disp s)) = [13; 15].
+Proof. split; [reflexivity|]. eexists. eexists. eexists. eexists. split; [vm_compute; reflexivity|]. split; vm_compute; reflexivity. Qed.
+
 Print Assumptions C08_stamps.  Print Assumptions C08_times_on_line_grid.  Print Assumptions C08_times_on_grid.
 Print Assumptions C08_not_before_line.  Print Assumptions C08_frames_per_word.  Print Assumptions C08_within_word_window_partial.
-Print Assumptions C08_stamp_never_late.  Print Assumptions C08_channel_block.  Print Assumptions C08_channel_filter_partial.
+Print Assumptions C08_stamp_never_late.  Print Assumptions C08_channel_block.  Print Assumptions C08_channel_filter.
 Print Assumptions C08_doubled_once.  Print Assumptions C08_popon_invisible_until_eoc.  Print Assumptions C08_popon_eoc_flip.
 Print Assumptions C08_edm_erases.  Print Assumptions C08_rollup_depth.  Print Assumptions C08_text_accumulates.
 Print Assumptions C08_backspace_removes_last.  Print Assumptions C08_extended_replaces.
+Print Assumptions C08_popon_word.  Print Assumptions C08_popon_memories.  Print Assumptions C08_file_words.
+Print Assumptions C08_popon_display.  Print Assumptions C08_rollup_word.  Print Assumptions C08_rollup_memories.
